@@ -1,7 +1,7 @@
 #!/bin/bash
 # development aid: ./dev.sh <timeout_s> <harness> [<harness>...]  -- run harnesses in a persistent dev scratch
 T=$1; shift
-D=/var/tmp/rv-dev
+D=${D:-/var/tmp/rv-dev}
 mkdir -p $D
 rsync -a --delete --exclude target --exclude .git --exclude .cargo /repo/ $D/ 
 mkdir -p $D/.cargo; printf '[net]\noffline = true\n' > $D/.cargo/config.toml
@@ -11,10 +11,10 @@ H=""
 for h in "$@"; do H="$H --harness $h"; done
 N=$#
 J=${J:-$N}
-cargo kani -p regress -Z stubbing -Z function-contracts -Z unstable-options $H -j $J --output-format terse --harness-timeout ${T}s ${FEATURES:+--features $FEATURES} --cbmc-args --max-field-sensitivity-array-size ${FS:-1024} > /var/tmp/rv-dev.log 2>&1
+cargo kani -p regress -Z stubbing -Z function-contracts -Z unstable-options $H -j $J --output-format terse --harness-timeout ${T}s ${FEATURES:+--features $FEATURES} --cbmc-args --max-field-sensitivity-array-size ${FS:-1024} > ${D:-/var/tmp/rv-dev}.log 2>&1
 python3 - <<'PY'
 import re
-out=open('/var/tmp/rv-dev.log').read()
+import os; out=open(os.environ.get('D','/var/tmp/rv-dev')+'.log').read()
 if 'could not compile' in out:
     print("\n".join(l for l in out.split("\n") if l.startswith("error") or '-->' in l)[:3000])
 ev=[]
